@@ -269,3 +269,10 @@ def handle_divs(sh, w, program, sr, select):
         if select(d):
             sh.violation(signature(d), detail(d), case_of(w, program))
     return True
+
+
+# errno values of injected OS faults: ordinary I/O failures plus the ones that tempt a library into a fallback
+# (another file system, busy, read-only, out of descriptors).  Not ENOENT/EEXIST/ENOTEMPTY, which the library
+# handles legitimately.
+FAULT_ERRNOS = ['EIO', 'ENOSPC', 'EACCES', 'EXDEV', 'EBUSY', 'EROFS', 'EMFILE']
+
